@@ -84,9 +84,17 @@ type dentry struct {
 	// origin says where the PRF came from: "generator" (internal/keys), "long-salt" / "reused#j"
 	// (PRF key drawn here and the deriver key rebuilt around the generator's derived-key parameters),
 	// "hmac300" (the stratified 300-byte HMAC entry) or "legacy" (harness-owned deriver key type served
-	// by a key manager: the factory's legacy-primitive route; proto route only).
+	// by a key manager: the factory's legacy-primitive route; proto route only).  For "legacy" entries
+	// the deriving primitive is the HARNESS's (legacykm calls sym.HKDF itself), so the material oracle
+	// compares sym.HKDF with sym.HKDF: only what the factory wraps around the primitive (one ENABLED
+	// key per ENABLED deriver key, IDs, prefix type, primary, determinism) is decided by such an entry.
+	// The evidence class spells it "legacy(wrapper-only)".
 	origin string
 	legacy *legacykm.DeriverSpec
+	// derivedUnusable: the derived-key parameters are accepted by the derived type's constructor and
+	// by the key deriver, but no primitive can be built from such a key (AES-GCM key size 24 or IV 13,
+	// AES-SIV 32, HKDF-PRF key 16, ...).  Everything but the usability clause is checked for them.
+	derivedUnusable bool
 }
 
 func (e *dentry) String() string {
@@ -171,6 +179,9 @@ func newEntry(info *keys.Info) *dentry {
 	e.prfSalt, _ = pf["salt"].([]byte)
 	e.derivedType = info.Fields["derived_type"].(string)
 	e.derived = info.Fields["derived"].(map[string]any)
+	if usable, ok := info.Fields["derived_usable"].(bool); ok && !usable {
+		e.derivedUnusable = true
+	}
 	return e
 }
 
@@ -223,7 +234,11 @@ func uniqueID(used map[uint32]bool, id uint32) uint32 {
 
 // generatorInfo draws a key of the shared generator and moves it to a unique ID.
 func generatorInfo(rt *rapid.T, label, typ string, used map[uint32]bool) (*keys.Info, uint32) {
-	info := keys.DrawTypeUsable(rt, label, typ)
+	return placeInfo(rt, label, keys.DrawTypeUsable(rt, label, typ), used)
+}
+
+// placeInfo moves a generated key to a unique keyset ID.
+func placeInfo(rt *rapid.T, label string, info *keys.Info, used map[uint32]bool) (*keys.Info, uint32) {
 	id := info.ID
 	if !info.HasID {
 		id = gen.KeyID(rt, label+"_ksid")
@@ -299,7 +314,22 @@ func drawKeyset(rt *rapid.T, maxKeys int, allowLegacy bool) []*dentry {
 			e = &dentry{info: info, origin: "legacy", legacy: spec, prfHash: spec.Hash, prfKey: spec.PRFKey, prfSalt: spec.PRFSalt, derivedType: "AesGcm", derived: map[string]any{"key_size": spec.DerivedSize}}
 			e.id = id
 		default:
-			info, id := generatorInfo(rt, label, "PrfBasedDeriver", used)
+			var info *keys.Info
+			var id uint32
+			// one entry in four: the derived-key parameters are ANY parameters the derived type accepts,
+			// usable as a primitive or not - about one entry in ten ends up with parameters from which no
+			// primitive can be built (the proto route needs a key format with a proto form: a
+			// deriver of AES-GCM parameters with another IV / tag size is replaced there)
+			if gen.Uniform(rt, label+"_derived_any", 4) == 0 {
+				if cand := keys.DrawDeriverOfDerivable(rt, label+"_any", false); !(allowLegacy && cand.NoSerialization) {
+					info, id = placeInfo(rt, label, cand, used)
+				} else {
+					evid.Add("any_derived_replaced_no_proto_form", 1)
+				}
+			}
+			if info == nil {
+				info, id = generatorInfo(rt, label, "PrfBasedDeriver", used)
+			}
 			e = newEntry(info)
 			e.id = id
 			switch {
@@ -450,9 +480,19 @@ type snapshot struct {
 	prefix   []tinkpb.OutputPrefixType
 }
 
+// prefixUnobservable stands for the prefix type of an entry whose key has no proto form (derived
+// AES-GCM keys with an IV size other than 12 or a tag size other than 16): KeysetInfo(), the only
+// place where a handle shows prefix types, panics for such a handle (C13's
+// TestNoKeyBytesWhenNotSerializable deals with that).  The output prefix BYTES of the key are compared instead.
+const prefixUnobservable = tinkpb.OutputPrefixType(-1)
+
 func snap(h *keyset.Handle) (*snapshot, error) {
 	s := &snapshot{}
-	info := h.KeysetInfo()
+	var info *tinkpb.KeysetInfo
+	func() {
+		defer func() { _ = recover() }()
+		info = h.KeysetInfo()
+	}()
 	for i := 0; i < h.Len(); i++ {
 		e, err := h.Entry(i)
 		if err != nil {
@@ -462,7 +502,11 @@ func snap(h *keyset.Handle) (*snapshot, error) {
 		s.statuses = append(s.statuses, e.KeyStatus())
 		s.primary = append(s.primary, e.IsPrimary())
 		s.keys = append(s.keys, e.Key())
-		s.prefix = append(s.prefix, info.GetKeyInfo()[i].GetOutputPrefixType())
+		if info == nil {
+			s.prefix = append(s.prefix, prefixUnobservable)
+		} else {
+			s.prefix = append(s.prefix, info.GetKeyInfo()[i].GetOutputPrefixType())
+		}
 	}
 	return s, nil
 }
@@ -779,6 +823,7 @@ func TestDeriveKeyset(t *testing.T) {
 			pos[id] = i
 		}
 		classes := map[keys.Class]bool{}
+		allUsable := true
 		for _, e := range enabled {
 			i, ok := pos[e.id]
 			if !ok {
@@ -790,7 +835,16 @@ func TestDeriveKeyset(t *testing.T) {
 			if first.primary[i] != e.primary {
 				rt.Fatalf("%v\nderived key %#x: primary=%v, deriver key primary=%v:%v", c, e.id, first.primary[i], e.primary, first)
 			}
-			if want := prefixTypeOf(e.info.Variant); first.prefix[i] != want {
+			if first.prefix[i] == prefixUnobservable {
+				evid.Add("prefix_type_compared_by_output_prefix_bytes", 1)
+				want := []byte{}
+				if e.info.HasID {
+					want = tk.Prefix(e.info.Variant, e.info.ID)
+				}
+				if op, ok := first.keys[i].(interface{ OutputPrefix() []byte }); ok && !bytes.Equal(op.OutputPrefix(), want) {
+					rt.Fatalf("%v\nderived key %#x has output prefix %x, the deriver key's variant %s and ID give %x", c, e.id, op.OutputPrefix(), e.info.Variant, want)
+				}
+			} else if want := prefixTypeOf(e.info.Variant); first.prefix[i] != want {
 				rt.Fatalf("%v\nderived key %#x has prefix type %v, deriver key has %v", c, e.id, first.prefix[i], want)
 			}
 			if id, has := first.keys[i].IDRequirement(); has != e.info.HasID || id != e.info.ID {
@@ -837,13 +891,19 @@ func TestDeriveKeyset(t *testing.T) {
 				rt.Fatalf("%v\nentry %s: flipping a PRF key byte does not change the derived material %x", c, e, got)
 			}
 
-			// (5) usability / interoperability with the ordinary key
-			interop(rt, c, e, first.keys[i], ref, msg, ad)
+			// (5) usability / interoperability with the ordinary key - the only clause that is skipped for
+			// derived-key parameters from which no primitive can be built
 			classes[classOf(e.derivedType)] = true
+			if e.derivedUnusable {
+				allUsable = false
+				evid.Add("derived_keys_not_usable_as_primitive/"+e.derivedType, 1)
+				continue
+			}
+			interop(rt, c, e, first.keys[i], ref, msg, ad)
 		}
 
 		// whole-handle usability when every derived key belongs to one primitive class
-		if len(classes) == 1 {
+		if len(classes) == 1 && allUsable {
 			wholeHandle(rt, c, enabled, d, msg, ad)
 		}
 
@@ -863,14 +923,27 @@ func TestDeriveKeyset(t *testing.T) {
 			if strings.HasPrefix(o, "reused") {
 				o = "reused"
 			}
+			if o == "legacy" {
+				o = "legacy(wrapper-only)"
+			}
 			origins[o] = true
 			evid.Add("entries_prf_"+o, 1)
+			evid.Add("entry_derived/"+e.derivedType+"/"+e.info.Variant+"/"+e.status, 1)
+			if e.primary {
+				evid.Add("primary_derived/"+e.derivedType+"/"+e.info.Variant, 1)
+			}
+			switch e.id {
+			case 0:
+				evid.Add("entry_id/0", 1)
+			case 1<<32 - 1:
+				evid.Add("entry_id/2^32-1", 1)
+			}
 			if len(e.prfSalt) > 62 {
 				evid.Add(fmt.Sprintf("entries_prf_salt_len_%d", len(e.prfSalt)), 1)
 			}
 		}
 		var os []string
-		for _, o := range []string{"generator", "long-salt", "reused", "legacy", "hmac300"} {
+		for _, o := range []string{"generator", "long-salt", "reused", "legacy(wrapper-only)", "hmac300"} {
 			if origins[o] {
 				os = append(os, o)
 			}
